@@ -44,39 +44,54 @@ Menu9S == SetToSeq(Menu9)
 MenuXS == SetToSeq(MenuX)
 Base == Max2(Len(Menu9S), Len(MenuXS)) + 1
 Pow(b, k) == IF k = 0 THEN 1 ELSE IF k = 1 THEN b ELSE IF k = 2 THEN b * b ELSE b * b * b
-NumDesc == Pow(Base, MaxFields) * 32
+NumDesc == Pow(Base, MaxFields) * 64
 Digits(n) == [k \in 1..MaxFields |-> (n \div Pow(Base, MaxFields - k)) % Base]      \* field digits, 0 = no field
 DescFromIndex(n) ==
   LET proto == IF n % 2 = 0 THEN "v9" ELSE "ipfix"
       menu == IF proto = "v9" THEN Menu9S ELSE MenuXS
-      dg == Digits(n \div 32)
+      dg == Digits(n \div 64)
       nf == Cardinality({k \in 1..MaxFields : dg[k] # 0})
       wf == /\ nf >= 1
             /\ \A k \in 1..MaxFields : (dg[k] # 0) = (k <= nf)      \* digits are prefix-closed
             /\ \A k \in 1..nf : dg[k] <= Len(menu)
   IN [ok |-> wf, proto |-> proto, two |-> (n \div 2) % 2 = 1, pad |-> (n \div 4) % 4, nrec |-> ((n \div 16) % 2) + 1,
+      kind |-> IF (n \div 32) % 2 = 0 THEN "data" ELSE "opts",
       fs |-> IF wf THEN [k \in 1..nf |-> SpecOf(menu[dg[k]])] ELSE <<>>]
 
 MinSize(d) == SumSeq([j \in 1..Len(d.fs) |-> IF d.fs[j].len = VarLen THEN 1 ELSE d.fs[j].len])
 \* a descriptor is admissible when its padding is shorter than the shortest record (RFC 3954 / RFC 7011),
 \* some field has a length, and the second template of a two-template set is cheap to tell apart
 Admissible(d) == /\ d.ok /\ d.pad < MinSize(d) /\ (\E j \in 1..Len(d.fs) : d.fs[j].len > 0)
-                 /\ (d.two => d.pad = 0 /\ d.nrec = 1)
+                 /\ (d.two => d.pad = 0 /\ d.nrec = 1 /\ d.kind = "data")
+                 \* options: V9 option fields have a length; one template per set
+                 /\ (d.kind = "opts" /\ d.proto = "v9" => \A j \in 1..Len(d.fs) : d.fs[j].len > 0 /\ ~d.fs[j].ent)
 
 Content(d, r, j) == IF d.fs[j].len = VarLen THEN Val(r, j, VarLenOf(r, j)) ELSE Val(r, j, d.fs[j].len)
 RawVal(d, r, j) == IF d.fs[j].len = VarLen THEN EncVarLen(Content(d, r, j), VarLong(r, j)) ELSE Content(d, r, j)
 Tmpl(d, id) == [id |-> id, count |-> Len(d.fs), fields |-> d.fs]
 OtherT == [id |-> 257, count |-> 1, fields |-> <<Spec9(2, 4)>>]
 TRecs(d) == IF d.two THEN <<OtherT, Tmpl(d, 256)>> ELSE <<Tmpl(d, 256)>>
-DataBody(d) == Flatten([r \in 1..d.nrec |-> Flatten([j \in 1..Len(d.fs) |-> RawVal(d, r, j)])]) \o Zeros(d.pad)
+\* options templates: V9 - one 2-byte "interface" scope field, then the option fields;  IPFIX - the first field is the scope
+Scope9 == <<Spec9(2, 2)>>
+OT9(d) == [id |-> 256, scope_len |-> 4, opt_len |-> 4 * Len(d.fs), scope |-> Scope9, opts |-> d.fs]
+OTX(d) == [id |-> 256, count |-> Len(d.fs), scope_count |-> 1, fields |-> d.fs]
+ScopeVal(r) == <<200 + r, 100 + r>>
+DataBody(d) ==
+  Flatten([r \in 1..d.nrec |-> (IF d.kind = "opts" /\ d.proto = "v9" THEN ScopeVal(r) ELSE <<>>)
+                                 \o Flatten([j \in 1..Len(d.fs) |-> RawVal(d, r, j)])]) \o Zeros(d.pad)
+MinSizeD(d) == MinSize(d) + (IF d.kind = "opts" /\ d.proto = "v9" THEN 2 ELSE 0)
 
 \* the number of the descriptor travels in the sequence-number field of the header, so that the
 \* invariants find the descriptor a buffer was built from without searching
 Tag(i) == <<0, i \div 65536, (i \div 256) % 256, i % 256>>
 UnTag(e) == e[2] * 65536 + e[3] * 256 + e[4]
 Enc(d, i) == IF d.proto = "v9"
-               THEN EncV9Hdr(2, [H9 EXCEPT !.seq = Tag(i)]) \o EncV9TmplSet(TRecs(d), <<>>) \o EncSet(256, DataBody(d))
-               ELSE EncIpfixMsg([HX EXCEPT !.seq = Tag(i)], <<EncIpfixTmplSet(TRecs(d), <<>>), EncSet(256, DataBody(d))>>)
+               THEN EncV9Hdr(2, [H9 EXCEPT !.seq = Tag(i)])
+                      \o (IF d.kind = "data" THEN EncV9TmplSet(TRecs(d), <<>>) ELSE EncV9OtmplSet(<<OT9(d)>>, <<>>))
+                      \o EncSet(256, DataBody(d))
+               ELSE EncIpfixMsg([HX EXCEPT !.seq = Tag(i)],
+                                <<IF d.kind = "data" THEN EncIpfixTmplSet(TRecs(d), <<>>) ELSE EncIpfixOtmplSet(<<OTX(d)>>, <<>>),
+                                  EncSet(256, DataBody(d))>>)
 
 MCBuffers == {Enc(DescFromIndex(i), i) : i \in {n \in 0..(NumDesc - 1) : Admissible(DescFromIndex(n))}}
 DescOf(b) == DescFromIndex(UnTag(IF U16At(b, 1) = 9 THEN Slice(b, 13, 4) ELSE Slice(b, 9, 4)))
@@ -99,14 +114,24 @@ ExportItem(it) ==
          \o Flatten([s \in 1..Len(it.sets) |-> ExportSet("ipfix", it.sets[s])])
 
 DecodeIsInverse ==
-  Done => LET d == DescOf(call.buf)  out == call.cs.out IN
+  Done => LET d == DescOf(call.buf)  out == call.cs.out
+              vals(r) == [j \in 1..Len(d.fs) |-> Content(d, r, j)] IN
           /\ Len(out) = 1 /\ out[1].k = d.proto /\ Len(out[1].sets) = 2
-          /\ out[1].sets[1].k = "tmpl" /\ out[1].sets[1].recs = TRecs(d) /\ out[1].sets[1].pad = <<>>
-          /\ out[1].sets[2].k = "data" /\ out[1].sets[2].id = 256
-          /\ out[1].sets[2].recs = [r \in 1..d.nrec |-> [j \in 1..Len(d.fs) |-> Content(d, r, j)]]
-          /\ out[1].sets[2].pad = Zeros(d.pad)
-          /\ call.cs.tm[d.proto].data[256] = Tmpl(d, 256)
-          /\ (d.two => call.cs.tm[d.proto].data[257] = OtherT)
+          /\ out[1].sets[1].pad = <<>> /\ out[1].sets[2].id = 256 /\ out[1].sets[2].pad = Zeros(d.pad)
+          /\ IF d.kind = "data"
+               THEN /\ out[1].sets[1].k = "tmpl" /\ out[1].sets[1].recs = TRecs(d)
+                    /\ out[1].sets[2].k = "data"
+                    /\ out[1].sets[2].recs = [r \in 1..d.nrec |-> vals(r)]
+                    /\ call.cs.tm[d.proto].data[256] = Tmpl(d, 256)
+                    /\ (d.two => call.cs.tm[d.proto].data[257] = OtherT)
+               ELSE /\ out[1].sets[1].k = "otmpl" /\ out[1].sets[2].k = "odata"
+                    /\ IF d.proto = "v9"
+                         THEN /\ out[1].sets[1].recs = <<OT9(d)>>
+                              /\ out[1].sets[2].recs = [r \in 1..d.nrec |-> [scope |-> <<ScopeVal(r)>>, opts |-> vals(r)]]
+                              /\ call.cs.tm.v9.opts[256] = OT9(d)
+                         ELSE /\ out[1].sets[1].recs = <<OTX(d)>>
+                              /\ out[1].sets[2].recs = [r \in 1..d.nrec |-> vals(r)]
+                              /\ call.cs.tm.ipfix.opts[256] = OTX(d)
 ExportIsIdentity ==
   Done => \A i \in 1..Len(call.cs.out) :
             call.cs.out[i].k \in {"v9", "ipfix"} =>
